@@ -141,12 +141,43 @@ class Obl:
         return False
 
 
+PLANT = None  # when set to k, executors negate the comparison at the k-th static site (vacuity guard)
+
+
 def new_executor(ctx, solver, models, inline, **kw):
     if not kw.get("allow_uf"):
         models = list(models) + M.make_combinators()
     ex = Executor(ctx.mir, solver, models, inline, enums=ctx.enums, **kw)
     ex.enum_hook = M.component_enum_hook
+    ex.flip_site = PLANT
     return ex
+
+
+def planted_mutants(ctx, run, sites=(0, 1, 2, 3)):
+    """Non-vacuity: the same job, on small bounds, with one comparison of the executed MIR negated must
+    produce failing obligations (for at least one of the first static comparison sites).  Replays are
+    skipped.  Returns a short report string, raises Unsupported when no planted mutant is noticed."""
+    global PLANT, native_test
+    keep = native_test
+    caught = []
+    try:
+        native_test = lambda *a, **k: dict(ran=False, failed=0, passed=0, out="(planted mutant: replay skipped)")
+        for k in sites:
+            PLANT = k
+            try:
+                u = run()
+            except (Unsupported, Exception) as e:  # a mutant that derails the executor is also 'noticed'
+                caught.append("site %d: executor stopped (%s)" % (k, type(e).__name__))
+                continue
+            failed = u.get("obligations", 0) - u.get("discharged", 0)
+            if failed > 0 or u.get("status") != "pass":
+                caught.append("site %d: %d obligations fail" % (k, failed))
+    finally:
+        PLANT = None
+        native_test = keep
+    if not caught:
+        raise Unsupported("vacuity guard: no planted mutant (negated comparison) was noticed")
+    return "%d of %d planted mutants noticed (%s)" % (len(caught), len(sites), "; ".join(caught))
 
 
 def finish(unit, ex, solver, ob, t0, extra=None, cross=True):
@@ -284,7 +315,9 @@ def run_clean(ctx, prop, kmax):
      functions=["sys::fs::path::clean (real MIR)", "OptionExt::has (real MIR, inlined)", "sys::fs::path::is_empty (real MIR, inlined)"],
      bounds="every component sequence of length 0..=5 obeying the Path::components contract, names unconstrained (3-name alphabet); loop bound 4k+16 block visits")
 def c14_quick(ctx, prop):
-    return run_clean(ctx, prop, 5)
+    u = run_clean(ctx, prop, 5)
+    u["planted_mutants"] = planted_mutants(ctx, lambda: run_clean(ctx, prop, 3))
+    return u
 
 
 @job("c14_clean_k8", ["C14", "C12"], "thorough",
@@ -409,7 +442,9 @@ def run_relative(ctx, prop, nmax):
      functions=["sys::fs::path::relative (real MIR)"],
      bounds="all ordered pairs of clean absolute paths with 0..=4 normal components each over a 3-name alphabet (names symbolic); p == b included")
 def c16_quick(ctx, prop):
-    return run_relative(ctx, prop, 4)
+    u = run_relative(ctx, prop, 4)
+    u["planted_mutants"] = planted_mutants(ctx, lambda: run_relative(ctx, prop, 2))
+    return u
 
 
 @job("c16_relative_n7", ["C16", "C12"], "thorough",
@@ -1411,7 +1446,9 @@ def run_chmod_mode(ctx, prop, lmax, lmin=0, templates=None, tag="c11_mode"):
      functions=["sys::fs::chmod::mode (real MIR)", "sys::fs::chmod::_pop (real MIR, inlined)"],
      bounds="every string of 0..=4 chars (any Unicode scalar), every entry (is_dir,is_file,is_symlink,mode<=0xffff), octal any u32")
 def c11_quick(ctx, prop):
-    return run_chmod_mode(ctx, prop, 4, tag="c11_mode_l4")
+    u = run_chmod_mode(ctx, prop, 4, tag="c11_mode_l4")
+    u["planted_mutants"] = planted_mutants(ctx, lambda: run_chmod_mode(ctx, prop, 5, templates=[["a", ":", G, O, P]], tag="c11_plant"), sites=(0, 2, 4, 6))
+    return u
 
 
 @job("c11_mode_l5", ["C11", "C12"], "quick",
@@ -1911,7 +1948,9 @@ fn replay_clean_text() {
      functions=["sys::fs::path::clean (real MIR) on text", "OptionExt::has, sys::is_empty (real MIR, inlined)"],
      bounds="every string of 0..=5 Unicode scalars (any chars, incl. '/', '.', multi-byte); string-level equality with Go's path.Clean")
 def c14_text_quick(ctx, prop):
-    return run_clean_text(ctx, prop, 5)
+    u = run_clean_text(ctx, prop, 5)
+    u["planted_mutants"] = planted_mutants(ctx, lambda: run_clean_text(ctx, prop, 3, tag="c14_plant"))
+    return u
 
 
 def toks_eq(a, b):
